@@ -49,7 +49,7 @@ def run_pair(task):
     res = {"task": task, "outcome": "held", "paths": 0, "obligations": 0, "cex": None}
     stats = Stats()
     try:
-        text = G.domain_text([("act", [], ["and"], ["and"])], const=False)
+        text = G.domain_text([("act", [], ["and"], ["and"])], const=bool(task.get("const")))
         atoms_a = task["atoms"]
         fl_a, fl_b = task["fluents_a"], task["fluents_b"]
         va = {a: z3.Bool("A" + a) for a in atoms_a}
@@ -141,7 +141,7 @@ def _same(ctx, x, y):
 def concrete_pair(task, A, B, XA, XB):
     """the real classes on concrete values (real float formatting, real float())"""
     from pddl_plus_parser.lisp_parsers import PDDLTokenizer, TrajectoryParser
-    text = G.domain_text([("act", [], ["and"], ["and"])], const=False)
+    text = G.domain_text([("act", [], ["and"], ["and"])], const=bool(task.get("const")))
     world = lib.World(text, G.OBJECTS)
     atoms_a = task["atoms"]
     order_b = list(reversed(atoms_a)) if task["reverse_b"] else list(atoms_a)
@@ -231,6 +231,11 @@ def tasks_for(tier):
         for rev in (False, True):
             tasks.append({"atoms": ATOMS[1:3], "fluents_a": ["(h o2 o2)", "(f o1)"], "fluents_b": ["(h o2 o2)", "(f o1)"],
                           "reverse_b": rev, "empty_keys": rev, "route_b": route})
+    # fluents and facts over the domain constant, the constant BEFORE an object (argument order is part of a fluent's identity)
+    for route in ("trajectory", "trajectory_without_problem"):
+        for rev in (False, True):
+            tasks.append({"atoms": ["(q k o1)", "(p k)"], "fluents_a": ["(h k o1)", "(h o1 k)"], "fluents_b": ["(h k o1)", "(h o1 k)"],
+                          "reverse_b": rev, "empty_keys": rev, "route_b": route, "const": True})
     # the two states are built by different routes of the library (problem parser vs trajectory parser with a problem)
     for fa in (FLUENTS[:1], []):
         for rev in (False, True):
